@@ -241,6 +241,11 @@ func vBez3(p0, p1, p2, p3, t Fl) Fl {
 //@   requires p != nil && len(points) >= 7
 //@   modifies p.path, p.path[..]
 //@   ensures lx == points[5] && ly == points[6]
+// the arc is swept in the parameter (eccentric anomaly) of the ellipse, eta = atan2(sin(theta)/ry, cos(theta)/rx)
+// for the polar angle theta of a point seen from the centre (L. Maisonobe 2003, eq. 2.2.1) - at BOTH ends
+//@   assert after etaStart#1: etaStart == atan2(sin(startAngle) / points[1], cos(startAngle) / points[0])
+//@   assert after etaEnd#1: etaEnd == atan2(sin(endAngle) / points[1], cos(endAngle) / points[0])
+//@   assert after deltaEta#1: deltaEta == etaEnd - etaStart
 //@   ensures fresh(p.path) || samebase(p.path, old(p.path))
 //@   loop 1 invariant (fresh(p.path) || samebase(p.path, old(p.path))) && 1 <= i && i <= segs + 1 && segs >= 1 && len(points) >= 7 && (i == segs + 1 ==> lx == points[5] && ly == points[6])
 //@   loop 1 decreases segs + 1 - i
